@@ -2,6 +2,7 @@ import KoordVerif.Common.Proto
 import KoordVerif.Model.C09
 import KoordVerif.Model.C09Plugin
 import KoordVerif.Model.C09Reconcile
+import KoordVerif.Model.C09Strategy
 /-
 Driver for C09.  A case is a sequence of scenario-building lines and `calc` lines:
   cfg  <cpuThr> <memThr> <cpuPol> <memPol> <cpuCapPct|-1> <memCapPct|-1> <degradeMinutes>
@@ -37,6 +38,16 @@ plugin glue (Model/C09Plugin.lean):
   bagain      -> `bpub …` `origin …`              Prepare once more on the SAME NodeResource (fresh node copy)
   bnr <cpuMilli|-1> <memMilli|-1> <reset> <ratioKind> <pct> <annoNil> <tpKind> <tpC|-1> <tpM|-1>
               -> `bpub …` `origin …`              Prepare on a hand-built NodeResource (stored quantities in milli units)
+per-node strategy resolution over a multi-node history (Model/C09Strategy.lean); a strategy is 16 integer tokens, -9999 = nil field:
+  ccfg <16 fields>                                the cluster strategy the ConfigMap declares (starts a new declaration)
+  ncfg <selKind 0 nil|1 empty|2 pool> <poolValue> <16 fields>      one more nodeConfigs entry of the declaration
+  cmload <0 unparsable JSON|1 colocation-config key empty|2 the declaration>
+              -> `cfgerr <0|1>` then the cache: `cache <16 fields>` `cachen <i> <16 fields>`*   (ConfigMap event -> syncConfig)
+  cacheq      -> the cache again (`cache …` `cachen …`*): what GetCfgCopy returns now
+  usenode <k>                                     switch to node k's published state (amounts, last sync, annotations)
+  nmeta <pool|-1> <annoKind 0 absent/unparsable|1 parsed> <16 fields> <lblCpu|-1> <lblMem|-1>      the node's metadata
+  resolve     -> `strat <enabled> <16 fields>`    GetNodeColocationStrategy + isColocationCfgDisabled for the node; the result
+                 becomes the round's `cfg` / `mcfg` / `hcfg`
 Float parameters are instantiated with Lean's runtime Float (IEEE binary64, as Go).
 -/
 namespace KoordVerif.C09
@@ -69,6 +80,13 @@ structure St where
   nrtZones : List (Int × Int) := [(0, 0), (0, 0)]   -- NRT zone batch amounts, abstracted: (1,1) = "whatever a fresh round wrote"
   frac : Int × Int := (0, 0)
   bnr : Option (Bool × ThirdParty × NRes) := none
+  -- multi-node strategy resolution
+  cache : CfgCache := defaultCache
+  declC : StratV := []
+  declN : Array (Sel × StratV) := #[]
+  nmeta : NodeMeta := {}
+  cur : Nat := 0
+  saved : List (Nat × (RState × RatioAnno × Option (Int × Int) × List (Int × Int))) := []
 
 def prio? : Int → Option Prio
   | 0 => some .prod | 1 => some .mid | 2 => some .batch | 3 => some .free | 4 => some .none | _ => none
@@ -125,6 +143,15 @@ def showBatchPrepared (b : BatchPrepared) : List String :=
   [s!"bpub {showExt b.cpu} {showExt b.mem}",
    match b.origin with | none => "origin none" | some (c, m) => s!"origin {c} {m}"]
 
+def nilTok : Int := -9999
+def stratV? (xs : List Int) : Option StratV :=
+  if xs.length = nStratFields then some (xs.map (fun x => if x = nilTok then none else some x)) else none
+def showStratV (s : StratV) : String := showInts (s.map (fun o => o.getD nilTok))
+def sel? (kind v : Int) : Option Sel :=
+  match kind with | 0 => some .nothing | 1 => some .everything | 2 => some (.pool v) | _ => none
+def showCache (c : CfgCache) : List String :=
+  s!"cache {showStratV c.cluster}" :: mapIdxFrom (fun i (e : Sel × StratV) => s!"cachen {i} {showStratV e.2}") 0 c.nodes
+
 def showRec (st : St) : St × List String :=
   match st.s, st.n, st.t, st.ms, st.mm, st.hcfg with
   | some s, some n, some (hu, now, upd), some ms, some mm, some (en, interval, thr) =>
@@ -145,7 +172,14 @@ def step (st : St) (line : String) : St × List String :=
   match toks line with
   | ["calc"] => (st, showCalc st)
   | ["clear"] => ({}, [])
-  | ["newround"] => ({ rst := st.rst, nodeRatio := st.nodeRatio, nodeOrigin := st.nodeOrigin, nrtZones := st.nrtZones }, [])
+  | ["newround"] => ({ rst := st.rst, nodeRatio := st.nodeRatio, nodeOrigin := st.nodeOrigin, nrtZones := st.nrtZones,
+                       cache := st.cache, declC := st.declC, declN := st.declN, cur := st.cur, saved := st.saved }, [])
+  | ["cacheq"] => (st, showCache st.cache)
+  | ["resolve"] =>
+    let v := resolve st.cache st.nmeta
+    let en := nodeEnabled st.cache st.nmeta
+    ({ st with s := some (stratOfV v), ms := some (midOfV v), hcfg := some (en, (fld v 6).getD 0, (fld v 7).getD 0) },
+     [s!"strat {b2i en} {showStratV v}"])
   | ["nodewipe"] => ({ st with nodeRatio := .absent, nodeOrigin := none }, [])
   | ["rec"] => showRec st
   | ["bagain"] =>
@@ -261,6 +295,40 @@ def step (st : St) (line : String) : St × List String :=
           let new : Pub := { Pub.empty with bc := b.cpu, bm := b.mem }
           (st, [s!"bsync {b2i (batchNeedSync diffOps thr old new)}"])
         | none => bad
+      | "ccfg", fs =>
+        match stratV? fs with
+        | some v => ({ st with declC := v, declN := #[] }, [])
+        | none => bad
+      | "ncfg", sk :: sv :: fs =>
+        match sel? sk sv, stratV? fs with
+        | some sel, some v => ({ st with declN := st.declN.push (sel, v) }, [])
+        | _, _ => bad
+      | "cmload", [kind] =>
+        match kind with
+        | 0 => (st, "cfgerr 1" :: showCache st.cache)
+        | 1 =>
+          let c := cmEvent st.cache (some none)
+          ({ st with cache := c }, "cfgerr 0" :: showCache c)
+        | 2 =>
+          let d : Declared := some (st.declC, st.declN.toList)
+          let c := cmEvent st.cache (some d)
+          ({ st with cache := c }, s!"cfgerr {b2i (loadCfg d).isNone}" :: showCache c)
+        | _ => bad
+      | "usenode", [k] =>
+        if k < 0 then bad else
+        let cur := (st.rst, st.nodeRatio, st.nodeOrigin, st.nrtZones)
+        let saved := (st.cur, cur) :: st.saved.filter (fun e => e.1 != st.cur)
+        let (r, nr, no, nz) := match saved.find? (fun e => e.1 == k.toNat) with
+          | some e => e.2
+          | none => (RState.init, RatioAnno.absent, none, [(0, 0), (0, 0)])
+        ({ st with cur := k.toNat, saved := saved, rst := r, nodeRatio := nr, nodeOrigin := no, nrtZones := nz }, [])
+      | "nmeta", pool :: ak :: rest =>
+        if rest.length ≠ nStratFields + 2 then bad else
+        match stratV? (rest.take nStratFields), rest.drop nStratFields with
+        | some v, [lc, lm] =>
+          if ak ≠ 0 ∧ ak ≠ 1 then bad else
+          ({ st with nmeta := { pool := optNeg pool, anno := if ak = 1 then some v else none, lblCpu := optNeg lc, lblMem := optNeg lm } }, [])
+        | _, _ => bad
       | "hcfg", [en, interval, thr] =>
         match bool? en with
         | some en => ({ st with hcfg := some (en, interval, thr) }, [])
